@@ -429,9 +429,41 @@ def cascade_part(ctx, out):
     return n, n
 
 
+def arguments_part(ctx, out):
+    """plain arguments handed to an operation (selection criteria, backend_kwargs) are the caller's objects: they must
+    come back unchanged"""
+    import copy
+
+    n = 0
+    cases = [
+        ("select(criteria dict + keyword)", lambda a, d: a.select(d, y="a"), {"x": 10}),
+        ("iselect(criteria dict + keyword)", lambda a, d: a.iselect(d, y=0), {"x": 1}),
+        ("sum(backend_kwargs)", lambda a, d: a.sum("x", backend_kwargs=d), {"keepdims": True}),
+        ("mean(batched, backend_kwargs)", lambda a, d: a.mean("x", batch_size=2, backend_kwargs=d), {"keepdims": True}),
+        ("std(batched, backend_kwargs)", lambda a, d: a.std("x", batch_size=2, backend_kwargs=d), {"keepdims": True}),
+        ("stack(backend_kwargs)", lambda a, d: a.stack("x", axis=1, backend_kwargs=d), {}),
+        ("concatenate(backend_kwargs)", lambda a, d: a.concatenate("x", backend_kwargs=d), {"axis": 0}),
+    ]
+    for label, fn, arg in cases:
+        n += 1
+        rp = {"part": "arguments", "op": label}
+        a = fr.source_impl(0, (3, 2), (2,))
+        mine = copy.deepcopy(arg)
+        try:
+            fn(a, mine)
+        except Exception as e:
+            out.append(({"monitor": "fluent_raised", "cause": f"{label.split('(')[0]}: {type(e).__name__}"}, f"{rp}: {e!r}"[:300], rp))
+            continue
+        if mine != arg:
+            out.append(({"monitor": "operand_mutated", "cause": f"{label.split('(')[0]}: the dict the caller passed in was changed"}, f"{rp}: {arg} -> {mine}", rp))
+    return n, n
+
+
 def run(ctx):
     out: list = []
     nc, ntc = cascade_part(ctx, out)
+    na, nta = arguments_part(ctx, out)
+    nc, ntc = nc + na, ntc + nta
     n1, nt1 = names_part(ctx, out)
     n1, nt1 = n1 + nc, nt1 + ntc
     if not ctx.quick:
@@ -465,6 +497,8 @@ def replay(ctx, data):
         reproducibility_part(ctx, out)
     elif data["part"] == "cascade":
         cascade_part(ctx, out)
+    elif data["part"] == "arguments":
+        arguments_part(ctx, out)
     else:
         operands_part(ctx, out)
     return [common.Violation(sig, msg, rp) for sig, msg, rp in out]
